@@ -119,6 +119,13 @@ Definition run_inf_float (oc : ocp) (ics : list iconstr) (pq : point Q) :=
   let L := @lists_any _ FloatOps oc pt in
   map (fun r => (Z.of_nat (rw_id r), rw_pt r, rw_h r)) (@inf_rows _ FloatOps L ics).
 
+(* grid='inf' rows of constraints polynomial in the states *)
+From RV Require Import Mech.Bern.
+Definition run_infp_float (oc : ocp) (pcs : list bconstr) (pq : point Q) :=
+  let pt := @point_of_Q _ FloatOps pq in
+  let L := @lists_any _ FloatOps oc pt in
+  map (fun r => (Z.of_nat (rw_id r), rw_pt r, rw_h r)) (@infp_rows _ FloatOps L pcs).
+
 (* multi-stage NLP: objective, rows (constraint ids offset by 1000 * stage tag), acceptance *)
 From RV Require Import Mech.Stages.
 Definition run_multi_float (mu : multi) (pq : list (point Q) * list Q) :=
